@@ -9,6 +9,7 @@ package main
 
 import (
 	"encoding/json"
+	"io"
 	"fmt"
 	"os"
 	"os/exec"
@@ -21,6 +22,8 @@ import (
 	"strings"
 	"sync"
 	"time"
+
+	"github.com/sirupsen/logrus"
 
 	"grulesim/sim/checks"
 	"grulesim/sim/core"
@@ -53,6 +56,8 @@ func seedFromEnv() uint64 {
 }
 
 func main() {
+	// ast/Serializer.go logs through the global logrus logger; keep it off the terminal
+	logrus.SetOutput(io.Discard)
 	if len(os.Args) < 2 {
 		fmt.Fprintln(os.Stderr, "usage: grulesim check|worker|replay|selftest|list ...")
 		os.Exit(2)
